@@ -166,6 +166,9 @@ def _list(ex, args, kwargs, node):
     return VTuple(list(v.items), tname='list')
   if isinstance(v, VCallable) and v.what == 'genexp':
     return L['list.comprehension'](ex, v.target[0], v.target[1])
+  if v.kind == 'listref':
+    from mmverif.engine import libcontracts
+    return libcontracts.listref_copy(ex, v)
   if isinstance(v, VOpaque) and ('opaque.tolist', v.okind) in L:
     return L[('opaque.tolist', v.okind)](ex, v, node)
   if hasattr(v, 'py_tolist'):
